@@ -19,6 +19,10 @@
        [c09_no_commit_lost_or_doubled] - every thread applied exactly a prefix of its dirty
        blocks, each once, and all of them once it has finished;
        [c09_some_thread_moves] - and the protocol cannot get stuck.
+       The LTS is executable ([ConcStore.run]); ConcCheck.v replays through it every finished run of
+       the controlled scheduler's scenario 'rows' (the writers' transactions as the API queued them,
+       the recorded latch order): it must accept the schedule, apply in the same order, finish, and
+       end with the values, liveness and Count the implementation shows (engine sched).
    (a)+(b) is the property; that the implementation's read-modify-write really happens inside the
    latch is validated by replaying recorded schedules through [lock_step] and by the scheduler
    scenario 'rows' (order-sensitive merge v*3+d, final value = fold in latch order). *)
